@@ -37,11 +37,13 @@ InvsSmall == {MkInv(4, 0, 1, 4, 1, 1, 1),      \* plain
               MkInv(1, 1, 1, 1, 1, 1, 1)}      \* reserved = total (refused below 1.26)
 NoInv     == MkInv(0, 0, 0, 0, 0, 0, 1)
 InvsThree == {MkInv(4, 0, 1, 4, 1, 1, 1), MkInv(4, 1, 2, 4, 2, 1, 2), MkInv(2, 0, 1, 2, 1, 2, 1)}
+InvsOne   == {MkInv(4, 0, 1, 4, 1, 1, 1)}
 InvsTwo   == {MkInv(4, 0, 1, 4, 1, 1, 1), MkInv(2, 0, 1, 2, 2, 2, 1)}
 G_forest  == {"forest"}
 G_alloc   == {"alloc", "invshrink"}
 G_reshape == {"reshape", "allocsmall"}
-G_names   == {"names", "inv"}
+G_names   == {"names", "invnames"}
+G_assoc   == {"assoc", "names", "forestsmall"}
 G_all     == {"forest", "inv", "alloc", "reshape", "names", "assoc", "reads"}
 
 vars == <<s, last>>
@@ -149,6 +151,11 @@ Requests ==
         ELSE {})
   \cup (IF "reshape" \in GROUPS THEN ReshapeReqs ELSE {})
   \cup (IF "names"   \in GROUPS THEN NamesReqs ELSE {})
+  \cup (IF "invnames" \in GROUPS THEN
+          {[op |-> "inv_post", v |-> 39, u |-> u, rc |-> k, inv |-> i] : u \in P, k \in K \cup {"NOSUCH"}, i \in INVS}
+          \cup {[op |-> "inv_del", v |-> 39, u |-> u, rc |-> k] : u \in P, k \in K}
+        ELSE {})
+  \cup (IF "forestsmall" \in GROUPS THEN {[op |-> "rp_delete", v |-> 39, u |-> u] : u \in P} ELSE {})
   \cup (IF "assoc"   \in GROUPS THEN AssocReqs ELSE {})
   \cup (IF "reads"   \in GROUPS THEN ReadReqs ELSE {})
 
